@@ -218,7 +218,8 @@ def run(spec, *, keep_snaps=True, snapshots_cfg=True, timeout=90, optimizer_obj=
     obs.spec = spec
     name = spec["optimizer"]
     if optimizer_obj is None:
-        opt, cfg, repaired = tasks.build_optimizer(name, spec["config"], debug=bool(spec.get("debug")))
+        opt, cfg, repaired = tasks.build_optimizer(name, spec["config"], debug=bool(spec.get("debug")),
+                                                     configure=spec.get("configure"))
     else:
         opt, cfg, repaired = optimizer_obj, optimizer_obj.configuration, False
     task = task_obj if task_obj is not None else tasks.build_task(spec["task"])
